@@ -1,6 +1,7 @@
 #include "core.hpp"
-Engine *make_pktsim() { return nullptr; }
-Engine *make_encsim() { return nullptr; }
-Engine *make_ratesim() { return nullptr; }
-Engine *make_mtsim() { return nullptr; }
-extern "C" void sched_edge_hook() {}
+// placeholders for engines that are not linked in (each real engine overrides its symbol)
+__attribute__((weak)) Engine *make_pktsim() { return nullptr; }
+__attribute__((weak)) Engine *make_encsim() { return nullptr; }
+__attribute__((weak)) Engine *make_ratesim() { return nullptr; }
+__attribute__((weak)) Engine *make_mtsim() { return nullptr; }
+__attribute__((weak)) extern "C" void sched_edge_hook() {}
